@@ -467,6 +467,9 @@ def check(args):
         if prop == "C10" and not args.only:
             from c10_engine import run_c10
             run_c10(ov, scratch, info, known, known_keys, tier, results, verdict, sel)
+        if prop == "C12" and not args.only:
+            from c10_engine import run_c12_rpc
+            run_c12_rpc(ov, scratch, info, tier, results, verdict, sel)
         if (prop == "C13" and not args.only) or (prop == "DEV" and args.only and "c13_z3" in args.only):
             from c13_engine import run_c13
             run_c13(ov, scratch, info, known, known_keys, tier, results, verdict, sel)
